@@ -11,6 +11,11 @@ binding: code->spec: SEPARATE interpreter processes (different PYTHONHASHSEED, i
          crowded processes: the judged ECU shares its interpreter with OTHER RandomUDSServer objects (other seeds /
          arguments, a twin) that are built, set up and used before / between / after its construction, setup() and
          requests (c16_lib.CROWD_PLANS); run 1 of such a case is the twin that lived alone in its interpreter.
+         vendor processes: the codec registry of the interpreter is not the stock one - modules of a synthetic
+         vendor package register UDSService subclasses for ISO services gallia has no class for, BEFORE / AFTER
+         gallia.services.uds.server (and gallia.commands, gallia.services.uds) is imported, right before the server
+         object is constructed, between construction and setup(), after setup() (c16_lib.VENDOR_GROUPS); equality is
+         demanded among the twins of a group only (same modules, registered in the same phase of the ECU's life).
          spec->code: every coin-flip outcome of the REAL generator is enumerated with a scripted RNG; the set
          of graphs must equal the set TLC derives from the design (difference = drift), and every graph is
          validated against (a) by TLC.
@@ -208,6 +213,9 @@ def _judge_cases(rep: Report, cases: list[dict[str, Any]], vs: list[dict[str, An
         if "pool" in c:  # crowded process environments: the neighbours belong to the replayable case
             base["pool"] = c["pool"]
             env = {"env": "crowd"}
+        if "vendor_group" in c:  # vendor process environments: the group (modules, stages) belongs to the case
+            base["vendor_group"] = c["vendor_group"]
+            env = {"env": "vendor", "group": c["vendor_group"]}
         rep.extra["unspecified_steps"] = rep.extra.get("unspecified_steps", 0) + va["u"] + vb["u"]
         if va["v"] != "ok":
             run = vs[va["run"] - 1]["name"] if va["run"] else "?"
@@ -228,7 +236,8 @@ def _judge_cases(rep: Report, cases: list[dict[str, Any]], vs: list[dict[str, An
                 sid = a["q"][0] if a["q"] else None
                 det.update(request=bytes(a["q"]).hex(), answer_run_A=[a["o"], bytes(a["r"]).hex()],
                            answer_other=[b["o"], bytes(b["r"]).hex()])
-            det["variants"] = [{k: v[k] for k in ("name", "hashseed", "import_first", "via_config")} for v in vs]
+            det["variants"] = [dict({k: v[k] for k in ("name", "hashseed", "import_first", "via_config")},
+                                    **({"vendor_imports": v["vendor"]["steps"]} if "vendor" in v else {})) for v in vs]
             if env and vb["run"]:
                 det["crowd_plan"] = vs[vb["run"] - 1].get("crowd")
             rep.violate(vb["v"], dict({"part": "b", "sid": sid}, **env), det)
@@ -284,7 +293,12 @@ def run(tier: str, seed: int) -> Report:
                 "histories on freshly restarted ECUs). Crowded environments: for a spread of the cases the ECU is "
                 "additionally built in interpreters where other RandomUDSServer objects (other seeds / arguments, a twin) "
                 "are constructed, set up and used before / between / after its construction, setup() and requests (6 "
-                "plans), and compared with its twin that lived alone in an interpreter. non-trivial = distinct cases whose model offers >= 2 sessions "
+                "plans), and compared with its twin that lived alone in an interpreter. Vendor environments: interpreters in "
+                "which a synthetic vendor package registers codec classes (UDSService subclasses) for ISO services gallia "
+                "has no class for, with argument lists that make the model draw those services; the twins of a group "
+                "import the same vendor modules before / after gallia.services.uds.server, gallia.commands, "
+                "gallia.services.uds, or right before the server object is constructed (further groups: between "
+                "construction and setup(), after setup()); only twins of one group are compared. non-trivial = distinct cases whose model offers >= 2 sessions "
                 "or that produced a security seed")
     rep.assumptions = [
         "time.time is virtual in the child processes; the variants differ in the tester's pacing (back to back, 0.3 s and 4 s "
@@ -315,9 +329,14 @@ def run(tier: str, seed: int) -> Report:
     # crowded process environments (run in the background while the first wave of lone processes is busy)
     cvs = L.crowd_variants(seed)
     ccases = L.crowd_family(tier, seed, cases)
-    crowd_pool = ThreadPoolExecutor(max_workers=1)
+    crowd_pool = ThreadPoolExecutor(max_workers=2)
     crowd_fut = crowd_pool.submit(L.run_crowd, ccases, cvs)
     cres: dict[str, dict[int, dict[str, Any]]] = {}
+    # vendor process environments (same: in the background of the first wave)
+    vvs = L.vendor_variants(seed)
+    vfam = L.vendor_family(tier, seed)
+    vendor_fut = crowd_pool.submit(L.run_vendor, vfam, vvs)
+    vres: dict[str, dict[str, dict[int, dict[str, Any]]]] = {}
     wave = 48
     tlc_results: list[Any] = []
     first_ok: tuple[dict[str, Any], dict[str, Any]] | None = None
@@ -329,14 +348,23 @@ def run(tier: str, seed: int) -> Report:
         tcs = _build_tcases(chunk, vs, res)
         if off == 0:
             cres = crowd_fut.result()
+            vres = vendor_fut.result()
             crowd_pool.shutdown()
+            rep.extra["vendor_processes"] = {
+                "groups": {g["name"]: {"phase": g["phase"], "imports": [r[3] for r in g["runs"]],
+                                       "judged_cases": len(vfam[g["name"]]),
+                                       **L.check_vendor_stats(vres[g["name"]], vvs[g["name"]], vfam[g["name"]])}
+                           for g in L.VENDOR_GROUPS},
+                "compared": "the runs of one group with each other, never a process with the vendor modules against "
+                            "one without, never across groups"}
+            vtcs = [t for g in vfam for t in _build_tcases(vfam[g], vvs[g], vres[g])]
             rep.extra["crowded_processes"] = {
                 "plans": [p["name"] for p in L.CROWD_PLANS], "judged_cases": len(ccases),
                 "neighbours": "per judged case: another seed with other arguments, the same seed with other arguments, "
                               "another seed with the same arguments, an exact twin",
                 "neighbour_activity": L.check_crowd_stats(cres, cvs)}
             ctcs = _build_tcases(ccases, cvs, cres)
-            tcs_all = tcs + ctcs + extra_cases
+            tcs_all = tcs + ctcs + vtcs + extra_cases
         else:
             tcs_all = tcs
         verd, results = L.validate(tcs_all, capacity=45_000 if tier == "quick" else 90_000, workers=6)
@@ -349,6 +377,11 @@ def run(tier: str, seed: int) -> Report:
             _judge_cases(rep, ccases, cvs, cres, verd)
             _stats(rep, ccases, cres, cvs[0]["name"])
             rep.traces += sum(len(t["runs"]) for t in ctcs)
+            # vendor processes: run 1 = the reference twin of the group
+            for g in vfam:
+                _judge_cases(rep, vfam[g], vvs[g], vres[g], verd)
+                _stats(rep, vfam[g], vres[g], vvs[g][0]["name"])
+            rep.traces += sum(len(t["runs"]) for t in vtcs)
             # generator graphs: part (a) of every graph the real generator can produce
             for cid, inf in gen_info.items():
                 va = verd[cid]["a"]
@@ -428,7 +461,30 @@ def run(tier: str, seed: int) -> Report:
                 cid = mc["id"] + 1 + pi
                 cmt.append(L.tlc_case(cid, ms_, mv_, [lone_run, L.tlc_run_of(r[v["name"]][mc["id"]])]))
                 cexp[cid] = (mutant, v["crowd"]["name"])
-    verd, results = L.validate([m[0] for m in muts] + mt + cmt, workers=2)
+    # vendor family: a generator that sees the codec registry as of the import of the server module must be told
+    # apart by every group that registers its classes before the ECU is constructed - the groups are not vacuous
+    vmt: list[dict[str, Any]] = []
+    vexp: dict[int, str] = {}
+    early = [g["name"] for g in L.VENDOR_GROUPS if g["phase"] == "before-construction"]
+    mvvs = L.vendor_variants(seed, "registry_snapshot")
+    with ThreadPoolExecutor(max_workers=len(early)) as ex:
+        vfuts = {}
+        for gi, g in enumerate(early):
+            src = next((c for c in vfam[g] if set(c["params"].get("mandatory_services", [])) & set(L.VENDOR_SF_IDS)),
+                       vfam[g][0])
+            mc = dict(src, id=3_000_400 + gi)
+            pair = mvvs[g][:2]  # the first two runs of every group straddle the import of the server module
+            vfuts[g] = (mc, pair, ex.submit(L.run_children, [mc], pair, 1, 2))
+        for g, (mc, pair, fut) in vfuts.items():
+            vmt += _build_tcases([mc], pair, fut.result())
+            vexp[mc["id"]] = g
+    verd, results = L.validate([m[0] for m in muts] + mt + cmt + vmt, workers=2)
+    if any(verd[cid]["b"]["v"].startswith(("H0", "H1")) for cid in vexp):
+        raise Machinery("vendor self-test: the harness's own tester is inconsistent")
+    blind = [g for cid, g in vexp.items() if verd[cid]["b"]["v"] == "ok"]
+    if blind:
+        raise Machinery(f"vendor self-test: a model generator with an import-time snapshot of the codec registry was "
+                        f"accepted by the groups {blind}")
     if any(verd[cid]["b"]["v"].startswith(("H0", "H1")) for cid in cexp):
         raise Machinery("crowd self-test: the harness's own tester is inconsistent")
     rejected = {(m, p) for cid, (m, p) in cexp.items() if (verd[cid]["a"]["v"], verd[cid]["b"]["v"]) != ("ok", "ok")}
@@ -448,7 +504,8 @@ def run(tier: str, seed: int) -> Report:
     stage["selftests"] = round(_t.time() - t0, 1)
     rep.extra["binding_selftest"] = {"corrupted_real_traces_rejected": [list(g) for g in got],
                                      "global_rng_mutant_rejected": mgot,
-                                     "process_wide_model_mutants_rejected": sorted(f"{m} by {p}" for m, p in rejected)}
+                                     "process_wide_model_mutants_rejected": sorted(f"{m} by {p}" for m, p in rejected),
+                                     "registry_snapshot_mutant_rejected": {g: verd[cid]["b"]["v"] for cid, g in vexp.items()}}
     return rep
 
 
@@ -466,13 +523,21 @@ def replay(path: str) -> int:
              "hist": d.get("hist", {}), "combo": d.get("combo")}
         if "pool" in d:  # crowded process environments: lone twin + one crowded interpreter per plan
             c["pool"] = d["pool"]
+        if "vendor_group" in d:  # vendor process environments: the twins of the group
+            c["vendor_group"] = d["vendor_group"]
         cases.append(c)
     if not cases:
         return 0
     bad = 0
     cvs = L.crowd_variants(int(data.get("seed", 0)))
-    for group, gvs, runner in (([c for c in cases if "pool" not in c], vs, lambda g: L.run_children(g, vs, chunk=4, workers=6)),
-                               ([c for c in cases if "pool" in c], cvs, lambda g: L.run_crowd(g, cvs))):
+    vvs = L.vendor_variants(int(data.get("seed", 0)))
+    plain = [c for c in cases if "pool" not in c and "vendor_group" not in c]
+    groups = [(plain, vs, lambda g: L.run_children(g, vs, chunk=4, workers=6)),
+              ([c for c in cases if "pool" in c], cvs, lambda g: L.run_crowd(g, cvs))]
+    for name, gv in vvs.items():
+        groups.append(([c for c in cases if c.get("vendor_group") == name], gv,
+                       lambda g, gv=gv: L.run_children(g, gv, chunk=1, workers=6)))
+    for group, gvs, runner in groups:
         if not group:
             continue
         res = runner(group)
